@@ -404,6 +404,26 @@ func main() {
 				c.fake.Reset()
 			}
 		}
+		// (3c) value histories: every ordered pair of boundary values of one argument as two consecutive
+		// calls (an encoder that remembers its previous input or output must not confuse them)
+		for _, f := range fields {
+			if f.Enc == spec.DateTime {
+				continue
+			}
+			bs := boundary(f)
+			for _, v1 := range bs {
+				for _, v2 := range bs {
+					a1, a2 := with(base, f.Name, v1), with(base, f.Name, v2)
+					if !accepted(op, serial0, a1) || !accepted(op, serial0, a2) {
+						continue
+					}
+					call(r, c, op, serial0, a1, wireArgs(op, a1), "")
+					call(r, c, op, serial0, a2, wireArgs(op, a2), "")
+					n += 2
+				}
+				c.fake.Reset()
+			}
+		}
 		atomic.AddInt64(&distinct, n)
 	})
 
@@ -577,6 +597,50 @@ func main() {
 		}
 	}
 
+	// (3b) SetTime histories by value: consecutive calls whose arguments are the same instant in two
+	// different Locations (different wall clocks -> different bytes), the same wall clock in two
+	// Locations (different instants -> same bytes), and two instants within one second: for every
+	// ordered pair of Locations. A value-keyed cache in the encoder that confuses any two of these
+	// answers the second call with the first call's bytes.
+	{
+		c := newClient()
+		op := spec.OpByName("SetTime")
+		locs := []*time.Location{time.UTC, time.FixedZone("+14", 14*3600), time.FixedZone("-12", -12*3600), time.FixedZone("+0545", 5*3600+45*60), time.Local}
+		for _, n := range []string{"America/New_York", "Australia/Lord_Howe"} {
+			if l, err := time.LoadLocation(n); err == nil {
+				locs = append(locs, l)
+			}
+		}
+		setTime := func(tt time.Time) {
+			a := spec.Args{ops.RawTime: tt, "DateTime": spec.CivilDT{Y: tt.Year(), M: int(tt.Month()), D: tt.Day(), H: tt.Hour(), Mi: tt.Minute(), S: tt.Second()}}
+			call(r, c, op, serial0, a, a, "")
+			distinct++
+		}
+		bases := []time.Time{}
+		for t := time.Date(2024, 1, 1, 0, 0, 0, 0, time.UTC); t.Year() == 2024; t = t.Add(173 * time.Hour) {
+			bases = append(bases, t.Add(29*time.Minute+31*time.Second))
+		}
+		bases = append(bases, time.Date(2024, 3, 10, 6, 30, 0, 0, time.UTC), time.Date(2024, 11, 3, 5, 30, 0, 0, time.UTC), time.Date(2000, 2, 29, 23, 59, 59, 0, time.UTC))
+		for _, t := range bases {
+			for _, l1 := range locs {
+				for _, l2 := range locs {
+					if l1 == l2 {
+						continue
+					}
+					t1 := t.In(l1)
+					setTime(t1)
+					setTime(t.In(l2)) // same instant, other Location
+					setTime(t1)
+					setTime(time.Date(t1.Year(), t1.Month(), t1.Day(), t1.Hour(), t1.Minute(), t1.Second(), 0, l2)) // same wall clock, other Location
+					setTime(t1)
+					setTime(t1.Add(999 * time.Millisecond)) // same second
+					setTime(t1.Add(time.Second))
+				}
+			}
+			c.fake.Reset()
+		}
+	}
+
 	// (4) histories: every ordered pair of operations on one client, and alternating between two
 	// clients; thorough: every ordered triple over a 10-operation sub-alphabet. Each operation has
 	// two distinct argument tuples (A = baseline, B = boundary variant) so leaked state is visible.
@@ -646,7 +710,7 @@ func main() {
 	}
 
 	r.Distinct(distinct)
-	r.Rule("per operation: baseline x serial alphabet; every argument over its full single-field domain (all uint8, 32-bit structured alphabet, all HH:mm, all ports, every octet, dates: thorough all 3652058 / quick 7 full years + first/last of every month, PINs: thorough all 10^6 / quick 0..9999 + boundaries); all argument pairs over boundary alphabets; all map shapes; passcode lists <= 6; SetTime over 5 Locations x every hour of 2024; every ordered pair of the 32 operations as a history on one and on two clients (thorough: triples over 10 operations). distinct = distinct (operation, argument tuple[, history]) cases generated; each differs from the baseline in at least one argument")
+	r.Rule("per operation: baseline x serial alphabet; every argument over its full single-field domain (all uint8, 32-bit structured alphabet, all HH:mm, all ports, every octet, dates: thorough all 3652058 / quick 7 full years + first/last of every month, PINs: thorough all 10^6 / quick 0..9999 + boundaries); all argument pairs over boundary alphabets; every ordered pair of boundary values of one argument as two consecutive calls; all map shapes; passcode lists <= 6; SetTime over 5 Locations x every hour of 2024, and consecutive SetTime calls with the same instant / the same wall clock / the same second in every ordered pair of 7 Locations; every ordered pair of the 32 operations as a history on one and on two clients (thorough: triples over 10 operations). distinct = distinct (operation, argument tuple[, history]) cases generated; each differs from the baseline in at least one argument")
 	r.Assume("reference encoder spec.EncodeRequest and tables spec/protocol.go (hand-written)")
 	r.Assume("process time zone pinned to UTC (zone dependence is C05/C13)")
 	r.Finish()
